@@ -78,7 +78,27 @@ class GGen:
         # helper-sharing bait: reuse an identical group, sometimes with a different action
         if self.shared_groups and self.p(0.3):
             self.feats.add("shared-group")
-            return self.r.choice(self.shared_groups)
+            g = self.r.choice(self.shared_groups)
+            if self.p(0.5):
+                # same items, different action: a helper shared by text alone would return the wrong value
+                import copy
+                import re
+
+                g = copy.deepcopy(g)
+                changed = False
+                for a in g[1]:
+                    if a[1]:
+                        a[1] = re.sub(r"t\d", "t%d" % self.r.randint(0, 9), a[1], count=1).replace('("t', '("u', 1)
+                        changed = True
+                    elif len(g[1]) > 1 or len(a[0]) > 1:
+                        named = [x for x in a[0] if x[1][0] not in ("pos", "neg", "cut", "forced")]
+                        if named:
+                            named[0][0] = "w1"
+                            a[1] = '("w%d", w1)' % self.r.randint(0, 9)
+                            changed = True
+                if changed:
+                    self.feats.add("shared-group-different-action")
+            return g
         n_alts = self.r.randint(1, 3)
         alts = [self.alt(i, depth + 1, allow_left=False) for _ in range(n_alts)]
         if not self.broken:
@@ -217,6 +237,16 @@ class GGen:
                 # D37: a rule that is a single group loses its outer action (Rule.flatten)
                 if len(alts) == 1 and len(alts[0][0]) == 1 and alts[0][0][0][1][0] == "grp":
                     alts.append([[[None, self.tok()]], None])
+            if self.p(0.15):
+                # helper-sharing bait: the same items under two different actions (and once without action) in one alternative
+                self.feats.add("same-items-different-actions")
+                items = [[None, self.tok()] for _ in range(self.r.randint(1, 2))]
+                items[0][0] = "q"
+                g1 = ["grp", [[[list(i) for i in items], '("g1", q)']]]
+                g2 = ["grp", [[[list(i) for i in items], '("g2", q)']]]
+                g3 = ["grp", [[[[None, i[1]] for i in items] + [[None, self.tok()]], None]]]
+                third = self.r.choice([g3, ["rep1", g2], ["opt", g1]])
+                alts.insert(self.r.randint(0, len(alts)), [[["x", g1], [None, self.r.choice([L(","), L("c")])], ["y", g2], ["z", third]], '("pair", x, y, z)'])
             memo = self.p(0.3)
             if memo:
                 self.feats.add("memo")
